@@ -25,6 +25,8 @@ ASSUMPTIONS = ["C02/C11 for the switch primitives"]
 RULES_DOC = dict(common.SHARED_DOC)
 RULES_DOC["R6"] = "= C03.R1: a join returns only after it observed TERMINATED (a unit is never reported joined, and then freed or revived, while it is still running)"
 RULES_DOC["R7"] = "= C06.R1/R3/R4: every post-switch callback, including its cancel arm, leaves the blocked-unit counter balanced (a unit that terminates in a callback is not counted as blocked for ever)"
+RULES_DOC["R8"] = "= C01.R5: a unit cancelled in a yield-family callback is not pushed back (TERMINATED is final)"
+RULES_DOC["R9"] = "= C02.R5: every switch primitive release-stores RUNNING into the unit it switches to before the switch (a unit never executes while its state says READY)"
 RULES_DOC.update({
     "R1": "role-based census of every store to ABTI_thread::state",
     "R2": "callers of ABTI_thread_terminate are the five terminating roles",
@@ -332,3 +334,6 @@ def run(P, rep, tier):
     common.borrow(rep, P, C03.rule_R1, "R6")
     from . import C06
     common.borrow(rep, P, C06.rule_R1_R3_R4, "R7")
+    from . import C01
+    common.borrow(rep, P, C01.rule_R5, "R8")
+    common.borrow(rep, P, C02.rule_R4_R5, "R9", only=("R5",))
